@@ -14,6 +14,7 @@ func init() {
 	streams["c08"] = func(seed uint64, thorough bool) { clntStream(seed, thorough, false, clntGenC08) }
 	streams["c12"] = func(seed uint64, thorough bool) { clntStream(seed, thorough, false, clntGenC12) }
 	streams["c19"] = clntStreamC19
+	streams["c08seq"] = func(seed uint64, thorough bool) { clntStream(seed, thorough, false, clntGenSeq) }
 }
 
 type clntGen func(r *rng, thorough bool, f func(c *clntCase))
@@ -487,6 +488,7 @@ func clntGenC07(r *rng, thorough bool, f func(c *clntCase)) {
 
 func clntGenC08(r *rng, thorough bool, f func(c *clntCase)) {
 	clntGenOversize(r, f)
+	clntGenExtended(r, []int{0, 1, 2}, f)
 	i := 0
 	mk := func(kind int, q *clntRq, rep clntReply, sc clntScript) {
 		i++
@@ -642,11 +644,190 @@ func clntGenOversize(r *rng, f func(c *clntCase)) {
 	}
 }
 
+// clntMaxReplies: every reply shape at its maximum legal size for the framing
+// (RTU: FC1-4 255, FC17 256, FC23 253, the fixed ones 8; TCP: FC1-4 259, FC17 260, FC23 257, fixed 12)
+func clntMaxReplies(r *rng, fr int) []struct {
+	q   *clntRq
+	rep clntReply
+} {
+	var out []struct {
+		q   *clntRq
+		rep clntReply
+	}
+	for _, fc := range fcs {
+		q := clntMkRq(r, fc, fr, 3)
+		rep := q.reply(r)
+		if fc == 17 {
+			// server id + run indicator + additional data fill the frame: 256 / 260 bytes
+			id := r.bytes(1 + r.intn(3))
+			add := r.bytes(250 - len(id))
+			st := r.u8()
+			pdu := append([]byte{17, byte(len(id))}, id...)
+			pdu = append(append(pdu, st), add...)
+			rep = clntReply{L(I(0), L(I(17), I(int(q.unit)), I(int(st)), B(id), B(add))), clntADU(fr, q.tid, q.unit, pdu)}
+		}
+		out = append(out, struct {
+			q   *clntRq
+			rep clntReply
+		}{q, rep})
+	}
+	return out
+}
+
+// clntGenExtended: a valid maximum-size reply followed by 1..10 trailing bytes, which arrive in the
+// same read, in a following read, or byte by byte
+func clntGenExtended(r *rng, kinds []int, f func(c *clntCase)) {
+	i := 0
+	for _, kind := range kinds {
+		for _, m := range clntMaxReplies(r, clntFrOf(kind)) {
+			b := m.rep.bytes
+			for n := 1; n <= 10; n++ {
+				ext := r.bytes(n)
+				all := append(append([]byte(nil), b...), ext...)
+				var scripts [][]clntStep
+				scripts = append(scripts, clntCutAs(all, []int{n % 2}))              // together
+				scripts = append(scripts, clntCutAs(all, []int{0, n % 2}, len(b)/2)) // together, after a first part
+				scripts = append(scripts, clntCutAs(all, []int{0, 1}, len(b)-1))     // all but one byte, then the rest + extension
+				scripts = append(scripts, clntCutAs(all, []int{n % 2, 0}, len(b)))   // in a following read
+				st := []clntStep{clntData(b)}
+				for _, x := range ext {
+					st = append(st, clntData([]byte{x})) // byte by byte
+				}
+				scripts = append(scripts, st)
+				for _, sc := range scripts {
+					i++
+					f(&clntCase{kind: kind, conn: true, flusher: i%3 == 0, hooks: i%2 == 0, rq: m.q,
+						sc: clntScript{fl: i%9 == 0, steps: append(sc, clntTail()...)}, want: m.rep.want})
+				}
+			}
+		}
+	}
+}
+
+// ---------- sequences ----------
+
+// clntGenSeq: 2..5 calls on one client object
+func clntGenSeq(r *rng, thorough bool, f func(c *clntCase)) {
+	i := 0
+	for kind := 0; kind < 3; kind++ {
+		fr := clntFrOf(kind)
+		normal := func() clntOp {
+			fc := []int{3, 16, 6, 1, 15}[r.intn(5)]
+			if kind != 0 && (fc == 3 || fc == 6 || fc == 1) {
+				fc = []int{15, 16}[r.intn(2)]
+			}
+			if r.intn(4) == 0 {
+				fc = fcs[r.intn(len(fcs))]
+			}
+			q := clntMkRq(r, fc, fr, r.intn(3))
+			rep := q.reply(r)
+			b := rep.bytes
+			c := 1 + r.intn(len(b)-1)
+			return clntOp{what: 2, rq: q, sc: clntScript{steps: clntCutAs(b, clntClassMixes[r.intn(4)], c)}, want: rep.want}
+		}
+		fault := func(which int) clntOp {
+			q := clntMkRq(r, []int{3, 16, 4, 15}[r.intn(4)], fr, 2)
+			rep := q.reply(r)
+			b := rep.bytes
+			e := q.req.ExpectedResponseLength()
+			k := r.intn(e - 1) // a prefix below the threshold
+			if k > len(b)-1 {
+				k = len(b) - 1
+			}
+			var pre []clntStep
+			if k > 0 {
+				pre = []clntStep{clntData(b[:k])}
+			}
+			sc := clntScript{}
+			switch which {
+			case 0: // stall until the total timer
+				sc.steps = append(pre, clntQuiet(), clntTimer())
+			case 1:
+				sc.steps = append(pre, clntIOErr(r.bytes(r.intn(3))))
+			case 2:
+				sc.wr = true
+				sc.steps = []clntStep{clntData(b)}
+			case 3:
+				sc.steps = append(pre, clntData(r.bytes(300)))
+			case 4:
+				sc.steps = append(pre, clntQuiet(), clntCtx())
+			case 5:
+				sc.steps = append(pre, clntQuiet(), clntCtxDeadline())
+			case 6:
+				sc.swd = true
+				sc.steps = []clntStep{clntData(b)}
+			case 7:
+				sc.steps = append(append(pre, clntEOF(nil)), clntTail()...)
+			default: // nil request
+				return clntOp{what: 2, rq: nil, sc: clntScript{steps: []clntStep{clntData(b)}}}
+			}
+			return clntOp{what: 2, rq: q, sc: sc, want: rep.want}
+		}
+		connect, dialFails, closeOp := clntOp{what: 0}, clntOp{what: 0, fail: true}, clntOp{what: 1}
+		emit := func(port bool, ops ...clntOp) {
+			i++
+			f(&clntCase{kind: kind, conn: port, flusher: i%2 == 0, hooks: i%3 != 0, ops: ops})
+		}
+		const nFaults = 9
+		if kind != 2 {
+			// not connected first: the later calls must still work
+			emit(false, normal(), normal())
+			emit(false, normal(), connect, normal())
+			emit(false, fault(8), normal(), connect, normal())
+			emit(false, normal(), closeOp, connect, normal(), closeOp)
+			emit(false, dialFails, normal(), connect, normal())
+			emit(false, closeOp, normal(), connect, normal())
+			for w := 0; w < nFaults; w++ {
+				emit(false, connect, fault(w), normal())
+				emit(false, connect, normal(), fault(w), normal(), closeOp)
+				emit(false, normal(), connect, fault(w), fault((w+3)%nFaults), normal())
+				emit(false, connect, fault(w), closeOp, normal(), connect)
+			}
+			emit(false, connect, normal(), closeOp, normal(), connect, normal())
+			emit(false, connect, closeOp, closeOp, normal())
+			emit(false, connect, connect, normal(), closeOp)
+		} else {
+			emit(false, normal(), normal())
+			emit(false, normal(), closeOp, normal())
+			emit(false, fault(8), normal(), closeOp)
+			for w := 0; w < nFaults; w++ {
+				emit(true, fault(w), normal())
+				emit(true, normal(), fault(w), normal(), closeOp)
+				emit(true, fault(w), fault((w+3)%nFaults), normal())
+				emit(true, fault(w), closeOp, normal())
+			}
+			emit(true, normal(), closeOp, normal(), normal())
+			emit(true, closeOp, closeOp, normal())
+		}
+		n := 150
+		if thorough {
+			n = 2000
+		}
+		for j := 0; j < n; j++ {
+			var ops []clntOp
+			for l := 2 + r.intn(4); l > 0; l-- {
+				switch x := r.intn(10); {
+				case x < 2 && kind != 2:
+					ops = append(ops, clntOp{what: 0, fail: r.intn(5) == 0})
+				case x < 3:
+					ops = append(ops, closeOp)
+				case x < 6:
+					ops = append(ops, normal())
+				default:
+					ops = append(ops, fault(r.intn(nFaults)))
+				}
+			}
+			emit(kind != 2 || r.intn(4) != 0, ops...)
+		}
+	}
+}
+
 // ---------- C12 ----------
 
 var clntAlphabet = []byte{0x00, 0x01, 0x7f, 0x80, 0x83, 0xff}
 
 func clntGenC12(r *rng, thorough bool, f func(c *clntCase)) {
+	clntGenExtended(r, []int{1, 2}, f)
 	i := 0
 	deliver := func(kind int, q *clntRq, m []byte) {
 		tail := clntTail()
